@@ -6,7 +6,7 @@ from props import judges
 from props.common import TRUSTED_BASE, ASSUMPTIONS
 
 ID = "C06"
-LEAN_MODULES = ["LexVerif.Props.C06", "LexVerif.Props.RoundNE", "LexVerif.Props.TablesWrite", "LexVerif.Props.Literals.WriteFloatBinary", "LexVerif.Props.Literals.WriteFloatHex", "LexVerif.Props.Literals.WriteFloatShared", "LexVerif.Props.Literals.WriteFloatWrite", "LexVerif.Props.Literals.WriteIntegerRadix", "LexVerif.Props.Literals.WriteIntegerAlgorithm", "LexVerif.Props.Literals.WriteIntegerDigitCount", "LexVerif.Props.Literals.UtilDigit", "LexVerif.Props.LiteralsModelWrite"]
+LEAN_MODULES = ["LexVerif.Props.Literals.UtilLibm", "LexVerif.Props.C06", "LexVerif.Props.RoundNE", "LexVerif.Props.TablesWrite", "LexVerif.Props.Literals.WriteFloatBinary", "LexVerif.Props.Literals.WriteFloatHex", "LexVerif.Props.Literals.WriteFloatShared", "LexVerif.Props.Literals.WriteFloatWrite", "LexVerif.Props.Literals.WriteIntegerRadix", "LexVerif.Props.Literals.WriteIntegerAlgorithm", "LexVerif.Props.Literals.WriteIntegerDigitCount", "LexVerif.Props.Literals.UtilDigit", "LexVerif.Props.LiteralsModelWrite"]
 GEN = ["write_tables", "literals"]
 TRUSTED = TRUSTED_BASE + [
     "binary.rs / hex.rs are modelled in Lean (Model/WriteBinary.lean; the `wf` model column must equal the implementation's bytes on every op). "
